@@ -6,13 +6,13 @@ VERIF = os.path.dirname(os.path.dirname(os.path.abspath(__file__)))
 sys.path.insert(0, VERIF)
 os.chdir(VERIF)
 TEXT = {
- 'C01': ('metamorphic + reference', 'generated programs (2-8 links over the whole step catalogue, 5 callable forms) compared lazy vs step-by-step vs split vs nested vs conditional-wrapped vs results()/process()/datastream(); user callables re-applied in plain Python; uninterpretable links must raise', 'Hypothesis program generator; differential/metamorphic oracle + plain-Python reference for user callables'),
- 'C02': ('validity predicate', 'generated pipelines of built-in steps over typed inputs; every emitted row checked against the emitted descriptor with the schema library\'s cast; descriptor validity; results() must not fail', 'Hypothesis program generator; validity predicate (tableschema cast, datapackage validity)'),
- 'C03': ('round trip + independent decoder', 'generated typed packages x dump options; load() round trip and a harness-written decoder that uses only the written descriptor', 'Hypothesis; round-trip oracle + independent decoder'),
+ 'C01': ('metamorphic + reference', 'generated programs (2-8 links over the whole step catalogue, 5 callable forms) compared lazy vs step-by-step vs split vs nested (incl. empty sub-Flows) vs conditional-wrapped (truthy predicate values) vs results()/process()/datastream(); user callables re-applied in plain Python (incl. ones raising StopIteration); uninterpretable links (non-steps, iterables of non-rows) must raise', 'Hypothesis program generator; differential/metamorphic oracle + plain-Python reference for user callables'),
+ 'C02': ('validity predicate', 'generated pipelines of built-in steps over typed inputs; every emitted row checked against the emitted descriptor with the schema library\'s cast; unique resource and field names; descriptor validity; results() must not fail; checkpointed programs are run twice (the resumed run is held to the same standard)', 'Hypothesis program generator; validity predicate (tableschema cast, datapackage validity)'),
+ 'C03': ('round trip + independent decoder', 'generated typed packages x dump options; load() round trip and a harness-written decoder that uses only the written descriptor; counters on/off, force_format=False, >1000-row resources, later in-place edits, a second dumper in the flow, resources arriving with encoding / dialect of their own', 'Hypothesis; round-trip oracle + independent decoder'),
  'C05': ('differential + completeness', 'observer inserted at drawn positions of generated programs; downstream result compared with the run without it; persisted/reported content compared with the stream at its position using harness decoders', 'Hypothesis program generator; differential oracle + independent decoders'),
- 'C06': ('history invariant', 'counting sources with provenance tags; look-ahead measured at every delivery; bounded by a constant and not growing with stream length; early-stop pipelines read at most K+constant rows', 'Hypothesis program generator; invariant over the execution history (pull/delivery counters)'),
- 'C09': ('recomputation', 'size / MD5 / row count recomputed from the written files and compared with the written descriptor and process() stats; two dumps compared', 'Hypothesis; recomputation oracle with independent decoder'),
- 'C10': ('exhaustive product + differential', 'every selector-taking processor x every selector form x fixed packages enumerated completely, plus drawn packages; harness selector model; unselected == without the step, selected == unrestricted step on the sub-package', 'exhaustive enumeration of a finite configuration product + Hypothesis; selector reference model + differential oracle'),
+ 'C06': ('history invariant', 'counting sources with provenance tags; look-ahead measured at every delivery (generator, sized iterable, load tuple with partial selection, sources, load() through a counting parser, SQL query with a counting function, unstream(file) through a counting file proxy); bounded by a constant and not growing with stream length; early-stop pipelines read at most K+constant rows unless a persisting observer sits in front of the early stop', 'Hypothesis program generator; invariant over the execution history (pull/delivery counters)'),
+ 'C09': ('recomputation', 'size / MD5 / row count recomputed from the written files (csv, json, xlsx) and compared with the written descriptor and process() stats; two dumps compared; dumping over an older dump, from another working directory', 'Hypothesis; recomputation oracle with independent decoder'),
+ 'C10': ('exhaustive product + differential', 'every selector-taking processor x every selector form x fixed packages enumerated completely, plus drawn packages; harness selector model; unselected == without the step, selected == unrestricted step on the sub-package; variants: regex=False, one-stream sources, a prelude step on all resources, behind duplicate, behind a resource deleted in the middle; the selector argument is not mutated', 'exhaustive enumeration of a finite configuration product + Hypothesis; selector reference model + differential oracle'),
  'C11': ('reference model', 'dict-of-lists join model written from the documentation; all 12 aggregators, 3 modes, key forms, wildcard, dedup mode; KVFile spill class', 'Hypothesis; reference model (bipartite matching for unordered parts)'),
  'C12': ('validity predicate + metamorphic', 'permutation, order under a reference key, stability, reverse == exact reverse, independence of batch size / cache spill', 'Hypothesis; validity predicate + metamorphic relations'),
  'C13': ('independent parse + policy model', 'harness-written CSV files re-read with csv.reader; header / strip / limit / strategy / on_error model; selector sub-check', 'Hypothesis; independent csv.reader oracle + policy model'),
